@@ -103,8 +103,8 @@ PROPS = {
                 "UnmarshalCaddyfile / strict JSON -> Provision with a caddy.Context; NewHubFromViper) and, when accepted, probed through its handler: which of 11 candidate "
                 "(key, algorithm) tokens publish, which subscribe, anonymous subscription, subscription API present, the cookie name consulted (valid / garbage token under 4 names), "
                 "CORS header and cookie-authenticated publish from 4 origins, a public publish outside the publish claim (compatibility 7); plus the effective options struct "
-                "(timeouts, transport type, origins, cookie, flags) read through an accessor added at build time; MERCURE_TRANSPORT_URL is set in the environment in 20% of the cases. Compared with Model/Config.v and judged by cfg_spec_ok "
-                "(every permission in effect was asked for; refusals where required). non-trivial = accepted configuration. shared-bolt-file: two mercure blocks provisioned in "
+                "(timeouts, transport type, origins, cookie, flags) read through an accessor added at build time; MERCURE_TRANSPORT_URL is set in the environment in 20% of the cases; one key argument in three is written as an {env.*} placeholder expanding to the key (to nothing for the empty key); the duration universe includes an explicit 0. Compared with Model/Config.v and judged by cfg_spec_ok "
+                "(every permission in effect was asked for; refusals where required; the configured key verifies; the configured transport and the configured timeouts - an explicit zero included - are the ones in effect). non-trivial = accepted configuration. shared-bolt-file: two mercure blocks provisioned in "
                 "one process whose Bolt transports name the same file with different sizes and bucket names: the second is refused (file lock) or retains what its own size says.",
         "trusted": ["caddyfile tokenizer, caddy.Context module loading, viper: glue exercised by the differential run only",
                     "key_ok / origin_ok oracles: tables computed by the harness's own rules (HMAC any key; RS256 iff the key is the RSA PEM; scheme://host[:port], * or null)",
@@ -244,7 +244,7 @@ PROPS = {
         "stages": [{"kind": "cases", "name": "lookups", "driver": "C11", "n": {"quick": 1500, "thorough": 20000}}],
         "rule": "sequences of 5-30 (topic, selector) lookups, and 2-4 goroutines sharing one store, against stores without cache, of size 0, tiny "
                 "(1-3 entries x 1-2 shards) and default; selectors: literals, every RFC 6570 operator/modifier, malformed templates; topics: expansions for "
-                "random values over unreserved, reserved (gen-delims, sub-delims) and never-literal characters, near misses, a literal prefix followed by reserved characters, strings around the cache-key separator '_' and pairs built to collide under key concatenation; templates padded with blanks, tabs and newlines (not templates: they match only themselves); every answer "
+                "random values over unreserved, reserved (gen-delims, sub-delims) and never-literal characters, near misses, a literal prefix followed by reserved characters, strings around the cache-key separator '_' and pairs built to collide under key concatenation; templates padded with blanks, tabs and newlines (not templates: they match only themselves); a corpus of two templates whose compiled-template cache keys share a 32-bit FNV-1a hash (found by a birthday search at run time), evaluated in both orders on stores of three sizes; every answer "
                 "compared with the cached model and with a fresh uncached evaluation by the library. non-trivial = sequence has both true and false answers",
         "trusted": ["uritemplate + Go regexp as oracle (Section variable tmatch); layer B (the template language itself) is not modelled",
                     "hashicorp LRU modelled as a map that may forget any entry at any time"],
